@@ -36,6 +36,8 @@ type schedAgg struct {
 	sitePairs   map[uint64]bool
 	Samples     []json.RawMessage
 	Aborts      []string
+	SoloProcs   int
+	ColdProcs   int
 }
 
 func newSchedAgg() *schedAgg {
@@ -370,7 +372,7 @@ func (c *checkCtx) absorbSched(w WorkerRun, prop, build string, agg *schedAgg) (
 // files and executes every chunk in fresh processes of the given build, the
 // concurrent run first (cold start: nothing in the process has touched the
 // plan's expressions before the callers race on them).
-func (c *checkCtx) runSchedCold(prop, build string, nPlans, chunk int, timeout time.Duration, agg *schedAgg) {
+func (c *checkCtx) runSchedCold(prop, build string, firstPlan, nPlans, chunk int, timeout time.Duration, agg *schedAgg) {
 	kflag := "12"
 	if prop == "C13" {
 		kflag = "13"
@@ -379,7 +381,7 @@ func (c *checkCtx) runSchedCold(prop, build string, nPlans, chunk int, timeout t
 	// stage 1: plans
 	var gjobs [][]string
 	for w := 0; w < nproc; w++ {
-		gjobs = append(gjobs, []string{"sched-gen", "-k", kflag, "-seed", strconv.FormatUint(c.Seed+7777, 10), "-from", strconv.Itoa(w), "-to", strconv.Itoa(nPlans), "-stride", strconv.Itoa(nproc)})
+		gjobs = append(gjobs, []string{"sched-gen", "-k", kflag, "-seed", strconv.FormatUint(c.Seed+7777, 10), "-from", strconv.Itoa(firstPlan + w), "-to", strconv.Itoa(firstPlan + nPlans), "-stride", strconv.Itoa(nproc)})
 	}
 	var plans []json.RawMessage
 	for _, w := range runPool(c.S.Plain, gjobs, []string{"GOMAXPROCS=1"}, nproc, timeout) {
@@ -400,44 +402,65 @@ func (c *checkCtx) runSchedCold(prop, build string, nPlans, chunk int, timeout t
 	if len(agg.Samples) < 3 && len(plans) > 0 {
 		agg.Samples = append(agg.Samples, plans[0])
 	}
-	// plans without shared objects go first in their chunk: nothing in that
-	// process has parsed anything before their callers do so concurrently
-	noShared := func(raw json.RawMessage) bool {
+	// "solo" plans get a process of their own: plans without shared objects (the
+	// first parse of the process happens inside the callers) and hammer-shaped
+	// plans (every caller makes the same calls on one shared object), for which
+	// whatever the calls do on first use in the process must not have been done
+	// by an earlier plan. The rest is grouped into chunks.
+	isSolo := func(raw json.RawMessage) bool {
 		var p plan.SchedPlan
-		return json.Unmarshal(raw, &p) == nil && len(p.Objects) == 0
-	}
-	for i := 0; i < len(plans); i += chunk {
-		j := i + chunk
-		if j > len(plans) {
-			j = len(plans)
+		if json.Unmarshal(raw, &p) != nil {
+			return false
 		}
-		for m := i; m < j; m++ {
-			if noShared(plans[m]) {
-				plans[i], plans[m] = plans[m], plans[i]
-				break
+		if len(p.Objects) == 0 {
+			return true
+		}
+		if len(p.Objects) != 1 || len(p.Tasks) < 2 {
+			return false
+		}
+		for _, t := range p.Tasks {
+			for _, o := range t {
+				if o.Kind != "create" && (o.Obj != 0 || (o.Kind != "eval" && o.Kind != "exec")) {
+					return false
+				}
 			}
 		}
+		return true
 	}
-	// stage 2: chunks
 	type chunkT struct {
 		file  string
 		plans []json.RawMessage
 	}
 	var chunks []chunkT
-	for i := 0; i < len(plans); i += chunk {
-		j := i + chunk
-		if j > len(plans) {
-			j = len(plans)
-		}
-		f := filepath.Join(c.S.Dir, fmt.Sprintf("plans-%s-%d.jsonl", build, i))
+	addChunk := func(ps []json.RawMessage) {
+		f := filepath.Join(c.S.Dir, fmt.Sprintf("plans-%s-%d.jsonl", build, len(chunks)))
 		var b strings.Builder
-		for _, p := range plans[i:j] {
+		for _, p := range ps {
 			b.Write(p)
 			b.WriteByte('\n')
 		}
 		os.WriteFile(f, []byte(b.String()), 0o644)
-		chunks = append(chunks, chunkT{f, plans[i:j]})
+		chunks = append(chunks, chunkT{f, ps})
 	}
+	var rest []json.RawMessage
+	solo := 0
+	for _, p := range plans {
+		if isSolo(p) {
+			addChunk([]json.RawMessage{p})
+			solo++
+		} else {
+			rest = append(rest, p)
+		}
+	}
+	for i := 0; i < len(rest); i += chunk {
+		j := i + chunk
+		if j > len(rest) {
+			j = len(rest)
+		}
+		addChunk(rest[i:j])
+	}
+	agg.SoloProcs += solo
+	agg.ColdProcs += len(chunks)
 	bin, env := c.schedBin(build)
 	sem := make(chan struct{}, nproc)
 	type outT struct {
